@@ -184,7 +184,7 @@ def set_position_discipline(ctx, F):
                 continue
             base = ("field", ("var", "self"), total)
             exp1 = ("bin", in_op, ("bin", out_op, base, old[arr]), X)
-            ok = T == exp1
+            ok = T == exp1 or T == hir.fold(exp1, {})
             if not ok and in_op == "^":
                 ok = hir.canon(T) == hir.canon(exp1)
             if not ok:
